@@ -139,7 +139,7 @@ func (m *Machine) runsInit(p *ssa.Package) bool {
 		return true
 	}
 	switch path {
-	case "io":
+	case "io", "unicode/utf8":
 		return true
 	}
 	return false
@@ -506,6 +506,15 @@ func (m *Machine) runPath(s *sym.Solver, fn *ssa.Function, prefix []Dec) (res *P
 	}()
 	if init := fn.Pkg.Func("init"); init != nil {
 		e.callSSA(nil, init, nil, nil)
+	}
+	// initialisers of the few non-repository packages whose tables are needed
+	// and that the repository's own init chain does not reach
+	for _, path := range []string{"unicode/utf8"} {
+		if p := m.Prog.ImportedPackage(path); p != nil {
+			if init := p.Func("init"); init != nil {
+				e.callSSA(nil, init, nil, nil)
+			}
+		}
 	}
 	e.callSSA(nil, fn, nil, nil)
 	if e.pos < len(e.prefix) {
